@@ -2,6 +2,7 @@ package main
 
 import (
 	"fmt"
+	"strings"
 
 	"github.com/ogen-go/ogen/gen"
 
@@ -22,10 +23,13 @@ const stages2Doc = `{"openapi":"3.0.3","info":{"title":"t","version":"1"},
    "responses":{"200":{"description":"ok","content":{"application/json":{"schema":{"$ref":"#/components/schemas/Item"}}}}}}},
  "/multi":{"post":{"operationId":"postMulti","requestBody":{"required":true,"content":{"multipart/form-data":{"schema":{"$ref":"#/components/schemas/Item"}}}},
    "responses":{"200":{"description":"ok","content":{"application/json":{"schema":{"$ref":"#/components/schemas/Item"}}}}}}},
+ "/bearer":{"get":{"operationId":"getBearer","security":[{"T":[]}],"responses":{"200":{"description":"ok","content":{"application/json":{"schema":{"$ref":"#/components/schemas/Item"}}}}}}},
+ "/hdr":{"get":{"operationId":"getHdr","parameters":[{"name":"X-Request-ID","in":"header","required":true,"schema":{"type":"string"}},{"name":"x-lower","in":"header","schema":{"type":"string"}},{"name":"X-UPPER-N","in":"header","schema":{"type":"integer"}}],
+   "responses":{"200":{"description":"ok","content":{"application/json":{"schema":{"$ref":"#/components/schemas/Item"}}}}}}},
  "/opt":{"post":{"operationId":"postOpt","requestBody":{"required":false,"content":{"application/json":{"schema":{"$ref":"#/components/schemas/Item"}}}},
    "responses":{"200":{"description":"ok","content":{"application/json":{"schema":{"$ref":"#/components/schemas/Item"}}}}}}}
 },
-"components":{"securitySchemes":{"A":{"type":"apiKey","in":"header","name":"X-A"},"B":{"type":"apiKey","in":"header","name":"X-B"},"C":{"type":"apiKey","in":"query","name":"c"}},
+"components":{"securitySchemes":{"A":{"type":"apiKey","in":"header","name":"X-A"},"B":{"type":"apiKey","in":"header","name":"X-B"},"C":{"type":"apiKey","in":"query","name":"c"},"T":{"type":"http","scheme":"bearer"}},
  "schemas":{"Item":{"type":"object","required":["name"],"properties":{"name":{"type":"string"}}}}}}`
 
 type c15pkgs struct {
@@ -64,29 +68,77 @@ func c15Extra(r *lp.Run, mod *gc.Module) *c15pkgs {
 			}
 		}
 	}
+	// the same for shapes spelled through allOf / oneOf / additionalProperties, under every style of the location
+	styles := map[string][]string{"path": {"simple", "label", "matrix"}, "query": {"form", "pipeDelimited", "spaceDelimited", "deepObject"}, "header": {"simple"}, "cookie": {"form"}}
+	k := 0
+	for _, loc := range []string{"path", "query", "header", "cookie"} {
+		for _, style := range styles[loc] {
+			for _, explode := range []bool{false, true} {
+				for _, sh := range []string{"allofobj", "allofarr", "allofobjarr", "oneofobj", "mapstr", "mapofarr", "mapofobj", "objmap"} {
+					k++
+					if !r.Thorough() && k%2 != int(r.Seed%2) && !(style == "pipeDelimited" && sh == "allofobj") {
+						continue
+					}
+					doc := paramSpec(loc, style, explode, sh)
+					r.PropCheck()
+					pkg, err := mod.Add(fmt.Sprintf("nest%d", i), []byte(doc), gen.Options{})
+					i++
+					r.Count("c15 composed "+loc+style+sh, "composed-shape:"+map[bool]string{true: "refused", false: "admitted"}[err != nil], false)
+					if err == nil {
+						out.nested = append(out.nested, c15nested{pkg, loc, fmt.Sprintf("%s style=%s explode=%v", sh, style, explode)})
+					}
+				}
+			}
+		}
+	}
 	return out
 }
 
 func c15ExtraRun(r *lp.Run, drv *gc.Driver, x *c15pkgs) {
 	respond := map[string]any{"$type": "*Item", "$value": map[string]any{"Name": "abc"}}
 	for _, n := range x.nested {
-		q := stReq{method: "GET", path: "/x", header: map[string][]string{}, stage: "any", hout: "ok"}
+		var qs []stReq
+		mk := func() stReq {
+			return stReq{method: "GET", path: "/x", header: map[string][]string{}, stage: "any", hout: "ok"}
+		}
 		switch n.loc {
 		case "path":
-			q.path = "/x/1"
+			for _, v := range []string{"1", "a,b", ".a.b", ";p=a,b", "a=1,b=2", ".a=1.b=2", ";a=1;b=2", "k,v,k2,v2", "a,b,c"} {
+				q := mk()
+				q.path = "/x/" + v
+				qs = append(qs, q)
+			}
 		case "query":
-			q.query = "p=1&a=1"
+			for _, v := range []string{"p=1&a=1", "p=a,b", "p=a|b", "p=a%20b", "p[a]=1&p[b]=2", "a=1&b=2", "p=k,v,k2,v2", "p=a&p=b", "p=a,b,c&k=v"} {
+				q := mk()
+				q.query = v
+				qs = append(qs, q)
+			}
 		case "header":
-			q.header["P"] = []string{"1"}
+			for _, v := range []string{"1", "a,b", "k,v", "a=1,b=2", "k,v,k2,v2", "a,b,c"} {
+				q := mk()
+				q.header["P"] = []string{v}
+				qs = append(qs, q)
+			}
 		case "cookie":
-			q.header["Cookie"] = []string{"p=1"}
+			for _, v := range []string{"p=1", "p=a,b", "p=k,v,k2,v2", "a=1; b=2", "p=a,b,c"} {
+				q := mk()
+				q.header["Cookie"] = []string{v}
+				qs = append(qs, q)
+			}
 		}
-		ans := c15Do(drv, n.pkg.Name, q, respond)
-		in := map[string]any{"location": n.loc, "shape": n.shape, "request": q.method + " " + q.path + "?" + q.query, "header": q.header}
-		if ans["panic"] != nil || ans["crash"] != nil || ans["driver_panic"] != nil {
-			r.Fail(lp.PropFail{Property: "C15", What: "a server generated for a nested parameter shape panics when the parameter is sent", Input: in, Observed: fmt.Sprint(ans["panic"], ans["crash"], ans["driver_panic"]), Expected: "a response (or no such server: the shape has no serialization)"})
-		} else if fmt.Sprint(ans["write_headers"]) != "1" {
-			r.Fail(lp.PropFail{Property: "C15", What: "not exactly one response is written", Input: in, Observed: fmt.Sprint(ans["write_headers"]), Expected: "1"})
+		for _, q := range qs {
+			ans := c15Do(drv, n.pkg.Name, q, respond)
+			r.PropCheck()
+			r.Count(fmt.Sprint(n.loc, n.shape, q.path, q.query, q.header), "nested-request", true)
+			in := map[string]any{"location": n.loc, "shape": n.shape, "request": q.method + " " + q.path + "?" + q.query, "header": q.header}
+			if ans["panic"] != nil || ans["crash"] != nil || ans["driver_panic"] != nil {
+				r.Fail(lp.PropFail{Property: "C15", What: "a server generated for a nested or composed parameter shape panics when the parameter is sent", Input: in, Observed: fmt.Sprint(ans["panic"], ans["crash"], ans["driver_panic"]), Expected: "a response (or no such server: the shape has no serialization)"})
+				break
+			} else if fmt.Sprint(ans["write_headers"]) != "1" {
+				r.Fail(lp.PropFail{Property: "C15", What: "not exactly one response is written", Input: in, Observed: fmt.Sprint(ans["write_headers"]), Expected: "1"})
+				break
+			}
 		}
 	}
 	if x.st2 == nil {
@@ -132,6 +184,45 @@ func c15ExtraRun(r *lp.Run, drv *gc.Driver, x *c15pkgs) {
 	for _, c := range cases {
 		q := stReq{method: "GET", path: c.path, query: c.query, header: c.hdr, script: c.script, stage: c.stage, hout: "ok"}
 		c15One(r, drv, pkg, q, respond)
+	}
+	// the Authorization header: one space between scheme and credentials, scheme name case-insensitive;
+	// anything else is not a credential and must not reach the handler
+	for _, a := range []struct {
+		v     string
+		stage string
+	}{
+		{"Bearer tok", "handler"}, {"bearer tok", "handler"}, {"BearerXtok", "security"}, {"Bearer=tok", "security"}, {"Bearer\ttok", "security"},
+		{"Bearertok", "security"}, {"Bearer", "security"}, {"Bear tok", "security"}, {"Basic dTpw", "security"}, {"", "security"}, {"Bearer:tok", "security"},
+	} {
+		q := stReq{method: "GET", path: "/bearer", header: h("Authorization", a.v), stage: a.stage, hout: "ok"}
+		c15One(r, drv, pkg, q, respond)
+	}
+	// header parameters whose names are not in canonical MIME form, behind the middleware: delivered, not lost,
+	// no panic; the required one missing is a parameter failure
+	for _, hc := range []struct {
+		hdr   map[string][]string
+		stage string
+		want  []string
+	}{
+		{h("X-Request-Id", "r1", "X-Lower", "lo", "X-Upper-N", "7"), "handler", []string{`"r1"`, `"lo"`, "7"}},
+		{h("X-Request-Id", "r2"), "handler", []string{`"r2"`}},
+		{h("X-Lower", "lo"), "params", nil},
+		{h("X-Request-Id", "r3", "X-Upper-N", "seven"), "params", nil},
+	} {
+		q := stReq{method: "GET", path: "/hdr", header: hc.hdr, stage: hc.stage, hout: "ok"}
+		c15One(r, drv, pkg, q, respond)
+		if hc.stage == "handler" {
+			ans := c15Do(drv, pkg, q, respond)
+			srv, _ := ans["server"].(map[string]any)
+			seen := fmt.Sprint(srv["params"]) + " " + fmt.Sprint(srv["mw_params"])
+			r.PropCheck()
+			for _, w := range hc.want {
+				if !strings.Contains(fmt.Sprint(srv["params"]), w) || !strings.Contains(fmt.Sprint(srv["mw_params"]), w) {
+					r.Fail(lp.PropFail{Property: "C15", What: "a header parameter with a non-canonical name does not arrive at the handler / the middleware", Input: map[string]any{"path": "/hdr", "header": hc.hdr}, Observed: seen, Expected: "value " + w + " in both"})
+					break
+				}
+			}
+		}
 	}
 	// optional request body
 	sp := func(s string) *string { return &s }
